@@ -31,6 +31,12 @@ pub fn deserialize(data: Bytes) -> Result<RtmpMessage, MessageDeserializationErr
     let command_name: String;
     let transaction_id: f64;
     let command_object: Amf0Value;
+
+    // A command always consists of at least a name, a transaction id and a command object
+    if arguments.len() < 3 {
+        return Err(MessageDeserializationError::InvalidMessageFormat);
+    }
+
     {
         let mut arg_iterator = arguments.drain(..3);
 
